@@ -105,3 +105,10 @@ func VerifSetOrphanLimit(n int) int {
 	numOrphanBlockLimit = n
 	return old
 }
+
+// VerifSetPoolLimits overrides the pool and orphan capacities (package variables) and returns the old values.
+func VerifSetPoolLimits(newTx, orphan int) (int, int) {
+	a, b := maxNewTxNum, maxOrphanNum
+	maxNewTxNum, maxOrphanNum = newTx, orphan
+	return a, b
+}
